@@ -19,6 +19,8 @@ struct LockstepExec {
   LockstepExec(Run &r, const char *p) : run(r), prop(p) {}
 
   int seg_mode_mask = 0;
+  std::map<int, int> m_set;      // last applied value per request (calibration covariates, CVBR preconditions)
+  int mset(int req, int dflt) const { auto it = m_set.find(req); return it == m_set.end() ? dflt : it->second; }
   void settings_changed() { cvbr_close(); ms_prev_size = -1; seg_bits = 0; seg_secs = 0; seg_frames = 0; seg_mode_mask = 0; seg_warm = 0; }
   double seg_warm = 0;
   // constrained VBR: long-term mean rate over a constant-settings segment (>= 5 s after 1 s warm-up)
@@ -32,7 +34,8 @@ struct LockstepExec {
     long milli = (long)(ratio * 1000);
     std::string k = std::string("max:cvbr_ratio_milli_") + fam + "_" + bucket;
     if (run.stat[k] < milli) run.stat[k] = milli;
-    if (getenv("OPSIM_CALIB")) fprintf(stderr, "CVBRSEG %s ratio=%.4f bitrate=%d fs=%d ch=%d frames=%ld secs=%.2f bytes_per_frame=%.1f\n", fam, ratio, m_bitrate, S.enc.L.fs, S.enc.L.ch, seg_frames, seg_secs, bpf);
+    if (getenv("OPSIM_CALIB")) fprintf(stderr, "CVBRSEG %s ratio=%.4f bitrate=%d fs=%d ch=%d frames=%ld secs=%.2f bytes_per_frame=%.1f mask=%d app=%d src=%d amp=%lld cplx=%d force=%d sig=%d fec=%d loss=%d bw=%d maxbw=%d fch=%d\n", fam, ratio, m_bitrate, S.enc.L.fs, S.enc.L.ch, seg_frames, seg_secs, bpf,
+        seg_mode_mask, S.enc.L.app, S.src.fam, (long long)S.src.amp, mset(OPUS_SET_COMPLEXITY_REQUEST, -1), mset(11002, -1), mset(OPUS_SET_SIGNAL_REQUEST, -1), mset(OPUS_SET_INBAND_FEC_REQUEST, -1), mset(OPUS_SET_PACKET_LOSS_PERC_REQUEST, -1), mset(OPUS_SET_BANDWIDTH_REQUEST, -1), mset(OPUS_SET_MAX_BANDWIDTH_REQUEST, -1), mset(OPUS_SET_FORCE_CHANNELS_REQUEST, -1));
     double tol = cvbr_tolerance(fam, bpf);
     run.count("cvbr_checked");
     if (ratio > 1.0 + tol)
@@ -55,6 +58,7 @@ struct LockstepExec {
     run.count("ctl_applied");
     if (S.frames_encoded > 0) run.fired = true;
     settings_changed();
+    m_set[req] = val;
     switch (req) {
       case OPUS_SET_BITRATE_REQUEST: {
         int ch = S.enc.L.ch;
@@ -190,11 +194,25 @@ struct LockstepExec {
         }
         ms_prev_size = ret; ms_prev_frame = frame; ms_prev_max = max_bytes;
       } else ms_prev_size = -1;
+      // exact size of a multistream CBR packet with an explicit bitrate: the requested bytes per packet (floor or round of
+      // bitrate x duration / 8), at least the smallest packet the streams can form (2 bytes per stream, 3 at 100 ms, minus one),
+      // at most the buffer; with OPUS_BITRATE_MAX the buffer is filled
+      if (!m_vbr && !m_dtx && m_bitrate != OPUS_AUTO && ret > 0) {
+        long smallest = 2L * L.streams - 1 + (L.fs / frame == 10 && L.fs % frame == 0 ? L.streams : 0);
+        long eff = std::min(300000L * L.ch, std::max(500L * L.ch, (long)m_bitrate));   // documented clamp of the multistream bitrate request
+        double x = m_bitrate == OPUS_BITRATE_MAX ? (double)max_bytes : (double)eff * frame / (8.0 * L.fs);
+        if (x < smallest) x = (double)smallest;
+        if (x > max_bytes) x = (double)max_bytes;
+        run.count("ms_cbr_exact_checked");
+        if (getenv("OPSIM_CALIB")) fprintf(stderr, "C05MSCBR d=%.3f ret=%d x=%.3f streams=%d frame=%d fs=%d max=%d br=%d\n", ret - x, ret, x, L.streams, frame, L.fs, max_bytes, m_bitrate);
+        else if (!(ret > x - 1 - 1e-9 && ret <= x + 0.5 + 1e-9))
+          REPORT(run, prop, "ms_cbr_size_wrong", "ret=%d want %.3f (floor or round) bitrate=%d frame=%d fs=%d max=%d streams=%d", ret, x, m_bitrate, frame, L.fs, max_bytes, L.streams);
+      }
     }
   }
 
   bool do_op(const Op &op) {
-    if (op.k == "ENCNEW") { S.op_encnew(op, run); settings_changed(); m_bitrate = OPUS_AUTO; m_vbr = 1; m_cvbr = 1; m_dtx = 0; }
+    if (op.k == "ENCNEW") { S.op_encnew(op, run); settings_changed(); m_bitrate = OPUS_AUTO; m_vbr = 1; m_cvbr = 1; m_dtx = 0; m_set.clear(); }
     else if (op.k == "DECNEW") S.op_decnew(op, run);
     else if (op.k == "SRC") S.op_src(op);
     else if (op.k == "CTL") op_ctl(op);
